@@ -1,6 +1,14 @@
-// ---- TRUSTED: <[T]>::to_vec copies the slice
+// ---- TRUSTED: <[T]>::to_vec copies the slice (element-wise clone); for bytes the copy has the same contents
+pub mod vslice {
+use vstd::prelude::*;
 verus! {
+pub uninterp spec fn is_to_vec_of<T>(s: Seq<T>, r: Seq<T>) -> bool;
 pub assume_specification<T: Clone>[ <[T]>::to_vec ](s: &[T]) -> (r: Vec<T>)
-    ensures r@.len() == s@.len(), forall|i: int| 0 <= i < s@.len() ==> cloned(s@[i], #[trigger] r@[i]),
+    ensures r@.len() == s@.len(), forall|i: int| 0 <= i < s@.len() ==> cloned(s@[i], #[trigger] r@[i]), is_to_vec_of(s@, r@),
 ;
+pub broadcast axiom fn axiom_to_vec_u8(s: Seq<u8>, r: Seq<u8>)
+    ensures #[trigger] is_to_vec_of(s, r) ==> r == s;
+pub broadcast group group_slice { axiom_to_vec_u8 }
 }
+}
+pub use vslice::*;
